@@ -170,6 +170,26 @@ def run(ctx):
             m = pdgname if pdg else (mother if len(targets) == 1 else rng.choice(targets))
             one(p, wire, text, m, (pdg, pm, dp, asc, norm, sc), "generated" if m == mother or pdg else "generated:derived")
         one(p, wire, text, "nosuchmother", (False, True, True, False, False, None), "missing")
+    # scale values that are no numbers of ]0, 1]: not-a-number and the infinities are out of range like any other such value
+    s0 = "Decay A\n 0.5 b c PHSP;\n 0.25 d PHSP;\nEnddecay\n"
+    p0 = DecFileParser.from_string(s0)
+    p0.parse()
+    for bad in (float("nan"), float("inf"), float("-inf")):
+        for asc in (False, True):
+            buf = io.StringIO()
+            try:
+                with contextlib.redirect_stdout(buf):
+                    p0.print_decay_modes("A", scale=bad, ascending=asc)
+                got = "printed: " + buf.getvalue()[:80]
+            except RuntimeError:
+                got = "RuntimeError"
+            except Exception as e:
+                got = type(e).__name__
+            res.case()
+            res.count("non_finite_scales")
+            if got != "RuntimeError":
+                res.violation("a scale outside ]0, 1] is not refused", {"kind": "print", "text": s0, "mother": "A", "options": {"scale": repr(bad), "ascending": asc}},
+                              impl=got, model="RuntimeError", clause="refusal of contradictory / out-of-range options")
     # the documented example
     s = "Decay MyD_0*+\n 0.533   MyD0   pi+        PHSP;\n 0.08    MyD*0  pi+  pi0   PHSP;\n 0.0271  MyD*+  pi0  pi0   PHSP;\n 0.0542  MyD*+  pi+  pi-   PHSP;\nEnddecay\n"
     p = DecFileParser.from_string(s)
